@@ -2,7 +2,7 @@
    Model: Model/Server.v (Server._enqueue / _wait_for_result / gather / notifier over an abstract
    servlet), after the repairs recorded in known_findings.json (while-loop around the not-full wait;
    ledger entry before the input is queued). *)
-From MpV Require Import Proof.ServerLedger.
+From MpV Require Import Proof.ServerLedger Proof.ServerReject.
 From MpV Require Import Lib.Conc Model.Server Proof.ServerProof.
 
 (* For every capacity, every number of concurrent callers (each with or without backpressure), every
@@ -36,9 +36,24 @@ Theorem C06_no_result_dropped : forall g sched, dropped_results (run step g (ini
 Proof. exact no_result_dropped. Qed.
 Print Assumptions C06_no_result_dropped.
 
-(* C06_backpressure_rejects_clean_todo: a caller that ends Rejected never appears in the ledger or the
-   input queue and never waits (by construction of step_k: the only path from KCheck with a full
-   ledger and backpressure goes to KUnlock (Some false)); checked by the oracle on every explored run. *)
+(* A rejected request leaves nothing behind: for every configuration and interleaving, a caller that is being or has been
+   rejected (at once, or after its wait expired) has no ledger entry, is in no queue, with no worker and not with the
+   gather thread, and is not among the condition's waiters. *)
+Theorem C06_rejected_leaves_nothing : forall g sched i pc,
+  let s := run step g (init g) sched in
+  nth_error (kp s) i = Some pc -> rejected_pc pc = true ->
+  led i s = 0%nat /\ inflight i s = 0%nat /\ ~ In i (waiters s).
+Proof. exact rejected_leaves_nothing. Qed.
+Print Assumptions C06_rejected_leaves_nothing.
+
+(* A caller that asked for backpressure never waits: at no moment of any run is it about to wait, queued on the
+   condition, woken, or rejected "after waiting" (so with a full backlog its only way out is the immediate
+   ServerBacklogFull, which by the theorem above leaves nothing behind). *)
+Theorem C06_backpressure_never_waits : forall g sched i pc kc,
+  nth_error (kp (run step g (init g) sched)) i = Some pc -> nth_error (callers g) i = Some kc ->
+  backpressure kc = true -> waits_pc pc = false /\ ~ In i (waiters (run step g (init g) sched)).
+Proof. exact backpressure_never_waits. Qed.
+Print Assumptions C06_backpressure_never_waits.
 
 (* Non-vacuity: with capacity 1 and three waiting callers the bound is reached, not exceeded. *)
 Example C06_example :
@@ -54,4 +69,15 @@ Example C06_example :
      K 2 false; K 2 false; K 2 false; K 2 false; K 2 false;      (* caller 2 slips in *)
      K 1 false; K 1 false; K 1 false]                            (* caller 1 re-checks and waits again *)
   in max_backlog s = 1%nat /\ nth_error (kp s) 1 = Some KWaiting.
+Proof. vm_compute. split; reflexivity. Qed.
+
+(* Non-vacuity of the rejection theorems: with capacity 1, a second caller using backpressure is rejected at once. *)
+Example C06_reject_example :
+  let g := {| capacity := 1;
+              callers := [ {| backpressure := false; arg := 0%Z |}; {| backpressure := true; arg := 1%Z |} ];
+              nworkers := 1; serve := fun x => Ok x |} in
+  let s := run step g (init g)
+    [K 0 false; K 0 false; K 0 false; K 0 false; K 0 false;      (* caller 0 accepted *)
+     K 1 false; K 1 false; K 1 false]                            (* caller 1: lock, full, raise *)
+  in nth_error (kp s) 1 = Some (KDone Rejected) /\ ledger s = [0%nat].
 Proof. vm_compute. split; reflexivity. Qed.
